@@ -19,12 +19,15 @@ Models (C15/Model.v)
   (C) _convenience.rename_values: dedup of pairs, grouping by graph, validation, pops, renames, re-adds, each
       container operation with the exceptions it can raise (GraphInitializers.__setitem__/__delitem__).
 
-Theorems (Property.v; 18, all closed)
+Theorems (Property.v; 22, all closed)
   (A) full: C15_gen_fuel_suffices, C15_fresh, C15_fresh_node (for EVERY history of register calls with arbitrary
       explicit names: a generated name is outside the seen set before the call, outside the initial set, and
       differs from every name of its kind registered or generated earlier), C15_monotone, C15_explicit_kept,
       C15_graph_adding / C15_graph_history (lifting to Graph(...)/append/extend/insert_*, also when the call
-      raises half way).
+      raises half way); C15_graph_fresh_log (the oracle's own statement as a theorem: for every history the name given to
+      an unnamed object is not in the LOG of names the graph registered or assigned so far; ProofsA3);
+      C15_ctor_generated_equals_present_refuted (stronger reading 'not present in the graph': the constructor names
+      unnamed inputs before registering explicit names - known finding + proposed fix).
   (B) all full for the fixed code (25cf9b5), under the hypotheses named in Property.v
       (WF0 = clause I5 of the C01 invariant; closed_run = every initializer the traversal meets belongs to a graph it
       enters; well_scoped = every value is first met in its own graph's scope or an enclosing one; NoDup nodes):
@@ -39,6 +42,8 @@ Theorems (Property.v; 18, all closed)
       set holds (ProofsB6/B7), a naive run records what each scope owns, on well-scoped traversals naive <= ghost
       (ProofsB8), and the naive scopes are exactly the nested graphs (ProofsB12/B13, custom induction))
       + C15_fix_post_unsorted_refuted (the scoping hypothesis is needed: known finding) + Example ex_sorted_hyps;
+      C15_fix_never_worse (ANY scoping, no hypothesis but 'did not raise': a changed name is new to the graph_like;
+      equal names afterwards = both kept or both renamed);
       C15_fix_keeps_unique / C15_fix_keeps_unique_node (+ C15_fix_keeps_unique_shared_refuted: disjointness is needed; whole pass: main graph and functions meeting disjoint
       values/nodes; the value may be met anywhere incl. only through an initializer dictionary; uniqueness only
       among what its graph's run meets) + C15_fix_keeps_unique_witness_fixed;
@@ -80,6 +85,10 @@ Findings (known_findings.d/C15.json)
   fixed 25cf9b5  namefix-raises-initializer-collision   inputs [w], initializers [w, w_1] -> ValueError
   fixed 25cf9b5  namefix-renames-unique-name            inputs x, x, x_1 -> x, x_1, x_1_1
                  (my proposed_fixes/C15-namefix-reserve-existing-names.diff, committed unchanged; corpus/C15/b-*.json)
+  known          ctor-names-inputs-before-registering-explicit-names   Graph([unnamed input], initializers=[val_0]) names the
+                 input val_0 (explicit names are registered after the unnamed inputs are named).  Not a violation of
+                 'registered or assigned BEFORE', a violation of the stronger 'present in the graph' reading; proposed fix
+                 proposed_fixes/C15-ctor-register-explicit-names-first.diff (suite passes).
   known          namefix-unclosed-initializer-capture   a function body reads an initializer `a` of the main graph whose
                  initializers are a, a_1 (not valid ONNX): the run over the function renames it to a_1 without having
                  pre-scanned the main graph's keys -> ValueError (C15_fix_total_unclosed_refuted).
@@ -87,9 +96,9 @@ Findings (known_findings.d/C15.json)
                  function node whose output is the only value named x_1): the main run renames the initializer to x_1,
                  the function run then renames the unique x_1 (C15_fix_keeps_unique_shared_refuted).
   known          namefix-unsorted-outer-capture         a subgraph reads an outer value produced by a later node:
-                 two values of the outer graph keep the same name, modified=False.  A repair (name all node
-                 outputs of a graph when it is entered) changes the numbering of fresh names in sorted graphs and
-                 was not proposed.
+                 two values of the outer graph keep the same name, modified=False.  Proposed fix proposed_fixes/C15-namefix-record-captured-names.diff:
+                 record the name of a value first met in a nested scope also in the scopes of its owning graph and the
+                 graphs in between (suite passes; results differ from the current code only on ill-scoped models).
 
 Mutants tried in a scratch worktree (VERIF_REPO), quick tier, seed 0, all re-run against /repo 6138197 (after fixes
 25cf9b5 and dff454e) with the full-strength theorems in place; "oracle X" = concrete replay from part X
@@ -177,7 +186,7 @@ A_VAL_NAMES = [None, None, None, None, "val_0", "val_1", "val_2", "val_3", "val_
 A_NODE_NAMES = [None, None, None, None, "node_Add_0", "node_Add_1", "node_Relu_0", "node_A_1_0", "node_A_1", "n", "",
                 "node_Add_2", "node__0", "node_A_0"]
 A_OPS = ["Add", "Add", "Relu", "A", "A_1", ""]
-A_INIT_NAMES = ["val_0", "val_1", "val_3", "w", "val_2"]
+A_INIT_NAMES = ["val_0", "val_1", "val_3", "w", "val_2"]   # val_0/val_1 collide with names generated for unnamed inputs
 
 
 def gen_history(rng, n_ops: int) -> list[dict]:
@@ -222,6 +231,7 @@ def run_history(ops: list[dict]) -> dict:
     steps: list[dict] = []    # {"ok":bool, "nn":[...], "vn":[...]}
     touched: list = []        # per step: (node handles, value handles) the op was applied to
     bad: list[str] = []
+    known: list[str] = []     # failures of the stronger reading at the known site (constructor ordering)
     seen_v: set = set()
     seen_n: set = set()
     g = None
@@ -254,12 +264,17 @@ def run_history(ops: list[dict]) -> dict:
             before = [v.name for v in values]
             g = ir.Graph(ins, [], nodes=[], initializers=inits, name="g")
             coq_ops.append(f"GCtor {cNl(range(len(values)))}")
+            explicit = [b for b in before if b is not None]
             for i, v in enumerate(values):
                 if before[i] is None:
                     if v.name is None:
                         bad.append("constructor left a graph input unnamed")
                     elif v.name in seen_v:
                         bad.append(f"generated value name {v.name!r} was already seen by the graph")
+                    elif v.name in explicit:
+                        # stronger reading: the name is present in the graph being built, only registered later
+                        known.append(f"constructor: generated input name {v.name!r} equals the explicit name of a value "
+                                     "of the same graph that the constructor registers afterwards")
                 elif v.name != before[i]:
                     bad.append(f"explicit value name {before[i]!r} changed to {v.name!r} by the constructor")
                 seen_v.add(v.name)
@@ -366,7 +381,7 @@ def run_history(ops: list[dict]) -> dict:
         tn = list(chosen) if kind in ("append", "extend", "insert_before", "insert_after") else []
         touched.append((tn, [j for j, w in enumerate(values) if any(w in nodes[i].outputs for i in tn)]))
         kinds.append(kind + ("" if ok else ":raise"))
-    return {"coq_ops": coq_ops, "steps": steps, "touched": touched, "n_nodes": len(nodes), "n_values": len(values), "bad": bad,
+    return {"known": known, "coq_ops": coq_ops, "steps": steps, "touched": touched, "n_nodes": len(nodes), "n_values": len(values), "bad": bad,
             "kinds": kinds, "generated": sum(1 for s in (seen_v | seen_n) if s and (s.startswith("val_") or s.startswith("node_")))}
 
 
@@ -1003,6 +1018,7 @@ def observe_rename(vals, graphs) -> dict:
             "isinit": [v.is_initializer() for v in vals],
             "vgraph": [None if v.producer() is not None else (None if v.graph is None else gh.get(id(v.graph), 99)) for v in vals],
             "isio": [v.is_graph_input() or v.is_graph_output() for v in vals],
+            "const": [v.const_value is not None for v in vals],
             "prod": [v.producer() is not None for v in vals]}
 
 
@@ -1052,12 +1068,13 @@ def c_case_term(spec: dict, obs: dict) -> str:
         return clist(cpair(cN(i), f(x)) for i, x in enumerate(xs))
 
     def cobs(o):
-        return "(%s, %s, %s, %s)" % (clist(cname(x) for x in o["vn"]), _cinits(o["inits"]),
-                                    clist(cbool(x) for x in o["isinit"]), clist(copt(x, cN) for x in o["vgraph"]))
+        return "(%s, %s, %s, %s, %s)" % (clist(cname(x) for x in o["vn"]), _cinits(o["inits"]),
+                                        clist(cbool(x) for x in o["isinit"]), clist(copt(x, cN) for x in o["vgraph"]),
+                                        clist(cbool(x) for x in o["const"]))
     res = "Ok tt" if obs["err"] is None else f"Raise {obs['err']}"
-    return "(%s, %s, %s, %s, %s, %s, %s, %s, %s, (%s, %s))" % (
+    return "(%s, %s, %s, %s, %s, %s, %s, %s, %s, %s, (%s, %s))" % (
         al(b["vn"], cname), _cinits(b["inits"]), al(b["isinit"], cbool), al(b["isio"], cbool),
-        al(b["vgraph"], lambda x: copt(x, cN)), al(b["prod"], cbool),
+        al(b["vgraph"], lambda x: copt(x, cN)), al(b["prod"], cbool), al(b["const"], cbool),
         cNl(spec["vs"]), clist(cstr(x) for x in spec["ns"]), cNl(range(n)), res, cobs(a))
 
 
@@ -1074,6 +1091,14 @@ def replay_known(ck) -> None:
         if k.get("status") != "known":
             continue
         spec = k["witness"]
+        if k.get("part") == "A":
+            r = run_history(spec)
+            if r["known"]:
+                ck.known_finding(k["key"], k["what"])
+            else:
+                ck.broken(f"known-finding-stale:{k['key']}", "the recorded history no longer shows the defect: "
+                          + json.dumps({"names": r["steps"][-1]})[:800])
+            continue
         obs = run_namefix(spec)
         bad = oracle_namefix(spec, obs)
         cls = classify_namefix(spec, obs, bad)
@@ -1117,6 +1142,12 @@ def part_a(ck, n_hist: int, n_ops: int, corpus: list) -> tuple[list, list]:
             ck.hist("A_ops", k)
         if r["bad"]:
             fails.append((ops, r["bad"]))
+        if r["known"] and ck.known("ctor-names-inputs-before-registering-explicit-names"):
+            ck.known_finding("ctor-names-inputs-before-registering-explicit-names",
+                             ck.known("ctor-names-inputs-before-registering-explicit-names")["what"])
+            ck.hist("A_ops", "ctor:generated-equals-later-explicit")
+        elif r["known"]:
+            fails.append((ops, r["known"]))
         if r["generated"] >= 2:
             ck.nontriv(("A", r["coq_ops"]))
     if results:
